@@ -6,7 +6,7 @@ rows of a dispatch table (dict literal of tuples of function references) and `ge
 """
 import ast
 
-from sa.consteval import UNKNOWN, Folder, Lam, ModAttr
+from sa.consteval import UNKNOWN, FnVal, Folder, Lam, ModAttr
 from sa.model import AnalysisError, ClassInfo, Finding, FunctionInfo, enclosing_fn, loc, src
 from sa.rules.cli import cli_model
 
@@ -250,6 +250,8 @@ def rule_call_dispatch(prog, rep, tier, anchor="conformance.ground_truth"):
         raise AnalysisError("CALL: no dispatch table (dict literal of tuples of function references) in %s" % anchor)
     n_sites = [0]
     reported = set()
+    effective = {}  # (fn qualname, var, callee, rowkey, option) -> {site ordinal: value}
+    OPTION_FLAGS = ("emit_default_doc", "word_wrap", "docstring_format", "inline_types", "emit_as_kwonlyargs", "emit_call", "wrap_description")
 
     def analyse(fn, env, rowkey, depth, chain):
         """env: name -> row value for names bound in fn."""
@@ -267,6 +269,21 @@ def rule_call_dispatch(prog, rep, tier, anchor="conformance.ground_truth"):
                 n_pos, kws, star, sstar, note = _call_shape(prog, folder, c, fenv)
                 n_sites[0] += 1
                 inst = "%s: %s(...)#%d -> %s [row %r]" % (fn.qualname, var, ordinal[var], sg.name, rowkey)
+                # effective value of each option flag at this site (explicit constant, else the callee's default)
+                fenv2 = dict(fenv)
+                fenv2.update({k_: FnVal(v_, {}) for k_, v_ in env.items() if isinstance(v_, FunctionInfo)})
+                defaults = {}
+                a_ = callee.node.args if isinstance(callee, FunctionInfo) else None
+                if a_ is not None:
+                    pn_ = [x.arg for x in a_.args]
+                    for nm_, d_ in zip(pn_[len(pn_) - len(a_.defaults):], a_.defaults):
+                        defaults[nm_] = folder.fold(d_, {}, d_)
+                for opt in OPTION_FLAGS:
+                    if opt not in defaults:
+                        continue
+                    kwv = next((k.value for k in c.keywords if k.arg == opt), None)
+                    val = folder.fold(kwv, fenv2, kwv) if kwv is not None else defaults[opt]
+                    effective.setdefault((fn.qualname, var, sg.name, rowkey, opt), {})[ordinal[var]] = (val, c)
                 rs = sg.must_fail(n_pos, kws, star, sstar)
                 if rs:
                     key = (fn.qualname, var, ordinal[var], sg.name)
@@ -330,6 +347,23 @@ def rule_call_dispatch(prog, rep, tier, anchor="conformance.ground_truth"):
                 analyse(f, {nm: v for nm, v in zip(bind_names, vals) if nm != "_"}, key, 0, [])
         if n_unpack == 0:
             raise AnalysisError("CALL: table %s in %s is never unpacked into variables" % (tname, anchor))
+    # CALL-SIB: the sibling sites that emit the same row (create / append / replace branch) use the same option values
+    seen_sib = set()
+    for (fq, var, callee_name, rowkey, opt), sites in sorted(effective.items(), key=lambda kv: str(kv[0])):
+        vals = {repr(v) for v, _ in sites.values() if v is not UNKNOWN}
+        if len(sites) < 2:
+            continue
+        if len(vals) > 1:
+            k_ = (fq, var, callee_name, opt)
+            if k_ in seen_sib:
+                continue
+            seen_sib.add(k_)
+            c0 = sorted(sites.items())[0][1][1]
+            rep.violation(Finding("CALL-SIB", fq, "option-disagreement:%s:%s" % (callee_name, opt),
+                                  "for table row %r the %d call sites of %s in %s pass different values of %s (%s): a target created by one branch is rewritten by the "
+                                  "other on the next run" % (rowkey, len(sites), callee_name, fq, opt, ", ".join("#%d=%s" % (o, v[0]) for o, v in sorted(sites.items()))), loc(prog, c0)))
+        else:
+            rep.holds("CALL-SIB", "%s: %s sites of %s agree on %s [row %r]" % (fq, len(sites), callee_name, opt, rowkey), "", "value %s" % (vals.pop() if vals else "unknown"))
     if n_sites[0] < 3:
         raise AnalysisError("CALL: only %d dispatch call sites found from %s" % (n_sites[0], anchor))
 
